@@ -135,8 +135,42 @@ for _owner, _name in ((binstall.InstallOutputs, 'add'), (binstall.InstallOutputs
                       (binstall, '_install_files'), (binstall, '_uninstall_files'),
                       (mwriter, 'directory_deps'), (mwriter, 'multitarget_rule'),
                       (iterutils, 'uniques'), (bopts.ForwardOptions, 'recurse'),
-                      (bopts.option_list, 'append'), (bopts.option_list, 'collect')):
+                      (bopts.option_list, 'append'), (bopts.option_list, 'collect'),
+                      (bpc.PkgConfigInfo, 'finalize'), (bpc.Requirement, 'split'),
+                      (bpc.RequirementSet, 'split')):
     advset.rewrite(_owner, _name)
+# version specifier sets are frozensets inside verspec: their iteration order is the hash seed's;
+# put it under the schedule as well (sorted by text, or the reverse of it)
+from bfg9000 import versioning as _bver
+_SS_BASE = _bver.SpecifierSet.__mro__[1] if '__iter__' not in _bver.SpecifierSet.__dict__ \
+    else _bver.SpecifierSet
+
+
+def _adv_spec_iter(self):
+    items = sorted(self._specs, key=str)
+    return iter(list(reversed(items)) if advset.AdvSet.REVERSE else items)
+
+
+for _k in _bver.SpecifierSet.__mro__:
+    if '__iter__' in _k.__dict__ and hasattr(_k, '__and__'):
+        _k.__iter__ = _adv_spec_iter
+        break
+
+
+class _PcInfo:
+    """stand-in for PkgConfigInfo carrying exactly the attributes finalize() reads"""
+    desc_name = desc = url = version = None
+    lang = 'c'
+    includes = requires = requires_private = None
+    options = link_options = link_options_private = bopts.option_list()
+    _require_deps = []
+    _filter_packages = staticmethod(bpc.PkgConfigInfo._filter_packages)
+
+    def __init__(self, libs, conflicts):
+        self.name = 'demo'
+        self.libs = libs
+        self.libs_private = None
+        self.conflicts = conflicts
 # `uniques` uses a set for membership only; keep the rewritten version visible to its importers
 mwriter.uniques = iterutils.uniques
 
@@ -175,7 +209,18 @@ def o_set_order(rev: bool, n: int) -> bool:
         order = [f.path.suffix for f in out.host]
         dirs = [_bp('d%d/out%d' % (i, i)) for i in range(4)][:n]
         dd = [p.suffix for p in mwriter.directory_deps(dirs)]
-        return order, dd
+        # generated .pc file: forwarded private libraries of a static library with n static
+        # dependencies, and a Conflicts entry with several version specifiers
+        deps = [ft.StaticLibrary(_bp('libdep%d.a' % i), 'elf', 'c') for i in range(n)]
+        core = ft.StaticLibrary(_bp('libcore.a'), 'elf', 'c', bopts.ForwardOptions(libs=deps))
+        conf = bpc.RequirementSet([bpc.Requirement('foo', _bver.SpecifierSet('>=1.0,<2.0,!=1.5'))])
+        try:
+            data = bpc.PkgConfigInfo.finalize(_PcInfo([core], conf))
+        except Exception:
+            return None
+        pc = ([f.path.suffix for f in data['libs_private']],
+              [i.name + str(i.version) for i in data['conflicts']])
+        return order, dd, pc
     advset.AdvSet.REVERSE = False
     base = run()
     advset.AdvSet.REVERSE = bool(rev)
@@ -183,4 +228,5 @@ def o_set_order(rev: bool, n: int) -> bool:
         other = run()
     finally:
         advset.AdvSet.REVERSE = False
-    return R(base is not None and base == other and len(base[0]) == n + 1 and len(base[1]) == n)
+    return R(base is not None and base == other and len(base[0]) == n + 1 and len(base[1]) == n and
+             len(base[2][0]) == n and len(base[2][1]) == 3)
